@@ -961,8 +961,10 @@ def date_total(ck, F, rule="DATE-TOTAL"):
     b = ck.need(F.one, "formatter::dates::date_to_serial_number")
     P = Program(F)
     A = zones.Analysis(b, P, F)
-    names = {b.local_name(i): i for i in range(1, b.nargs + 1)}
-    ck.ob(rule, "date_to_serial_number|params", "year" in names, "parameter `year` not found", b.file, b.line)
+    # date_to_serial_number(day: u32, month: u32, year: i32): the year is the signed parameter
+    ys = [i for i in range(1, b.nargs + 1) if b.locals[i] == "i32"]
+    names = {"year": ys[0]} if len(ys) == 1 else {}
+    ck.ob(rule, "date_to_serial_number|params", "year" in names, "the (single i32) year parameter was not found", b.file, b.line)
     if "year" not in names:
         return
     yt = "_%d" % names["year"]
